@@ -60,6 +60,14 @@ pub fn small_shapes(max_n: usize) -> Vec<(Fam, Cont, usize)> {
             }
         }
     }
+    // the 2-ary convenience methods (FutureExt::join / race, StreamExt::merge / zip / chain) and wait_until
+    if max_n >= 2 {
+        for fam in [Fam::Join, Fam::Race, Fam::Merge, Fam::Zip, Fam::Chain, Fam::WaitF, Fam::WaitS] {
+            if supported(fam, Cont::Ext, 2) {
+                v.push((fam, Cont::Ext, 2));
+            }
+        }
+    }
     v
 }
 
